@@ -87,33 +87,44 @@ def disp2eig_obligations(chk, d2e, tier, rng):
             ctx.assume(">", sum((a[r, j] * a[r, j] for j in range(3 * N)), Sym({})))    # non-zero displacement rows
 
         def fn():
-            return d2e.evec_disp2eig(a, mass)
+            return d2e.evec_disp2eig(a.copy(), list(mass))
         t0 = time.time()
+        # every guard the code evaluates on the data is explored on both sides (a data-dependent special case is part of the behaviour)
+        ex = X.Explorer(max_paths=32, name=name)
         try:
-            out = X.run_single_path(fn, name=name)
-        except SymError as e:
+            paths = ex.run(fn)
+        except (SymError, X.PathBudgetExceeded) as e:
             chk.inconclusive(name, str(e))
             continue
-        except Exception as e:
-            chk.obligation(name + ": unit norm", "sat", detail=str(e))
-            replay_d2e(chk, d2e, M, N, rng, "raises %s: %s" % (type(e).__name__, e))
-            continue
         ok = True
-        for r in range(M):
-            nrm = sum((Sym.of(out[r, j]) * Sym.of(out[r, j]) for j in range(3 * N)), Sym({}))
-            v, env = Z.prove_zero(nrm - 1, name=name + ":unit-norm", timeout_ms=30000)
-            ok = ok and v == "unsat"
-            # direction: out[r, j] is a positive multiple of a[r, j] * sqrt(m_j): out_rj * (a_rk sqrt m_k) == out_rk * (a_rj sqrt m_j)
-            for j in range(3 * N):
-                for k in range(j + 1, 3 * N):
-                    lhs = Sym.of(out[r, j]) * a[r, k] * mass[k // 3].sqrt()
-                    rhs = Sym.of(out[r, k]) * a[r, j] * mass[j // 3].sqrt()
-                    v2, _ = Z.prove_zero(lhs - rhs, name=name + ":direction", timeout_ms=20000)
-                    ok = ok and v2 == "unsat"
-        chk.obligation(name + ": every output row has unit norm and is parallel to M^(1/2) times the displacement row", "unsat" if ok else "sat",
-                       seconds=round(time.time() - t0, 2), kind="identity")
+        bad_env = None
+        for p in paths:
+            pc = p.path_condition()
+            if p.exception is not None:
+                ok = False
+                v0, env0 = Z.satisfiable([], name=name + ":raising-path", conds=pc)
+                bad_env = bad_env or env0 or {}
+                continue
+            out = p.result
+            for r in range(M):
+                nrm = sum((Sym.of(out[r, j]) * Sym.of(out[r, j]) for j in range(3 * N)), Sym({}))
+                v, env = Z.prove_zero(nrm - 1, name=name + ":unit-norm", timeout_ms=30000, conds=pc)
+                if v != "unsat":
+                    ok = False
+                    bad_env = bad_env or env
+                # direction: out[r, j] is a positive multiple of a[r, j] * sqrt(m_j): out_rj * (a_rk sqrt m_k) == out_rk * (a_rj sqrt m_j)
+                for j in range(3 * N):
+                    for k in range(j + 1, 3 * N):
+                        lhs = Sym.of(out[r, j]) * a[r, k] * mass[k // 3].sqrt()
+                        rhs = Sym.of(out[r, k]) * a[r, j] * mass[j // 3].sqrt()
+                        v2, env2 = Z.prove_zero(lhs - rhs, name=name + ":direction", timeout_ms=20000, conds=pc)
+                        if v2 != "unsat":
+                            ok = False
+                            bad_env = bad_env or env2
+        chk.obligation(name + ": every output row has unit norm and is parallel to M^(1/2) times the displacement row (all %d paths)" % len(paths),
+                       "unsat" if ok else "sat", seconds=round(time.time() - t0, 2), kind="identity", detail=dict(paths=len(paths)))
         if not ok:
-            replay_d2e(chk, d2e, M, N, rng, "unit norm / direction")
+            replay_d2e(chk, d2e, M, N, rng, "unit norm / direction", env=bad_env)
     # displacement rows built from an orthonormal set: output rows are orthonormal again, equal to e_i up to the sign of c_i
     name = "disp2eig[restores an orthonormal pair, N=1]"
     ctx = new_context()
@@ -202,10 +213,18 @@ def disp2eig_obligations(chk, d2e, tier, rng):
         chk.violation("disp2eig:accepts-mismatch", "evec_disp2eig accepts a (2,5) matrix with 2 masses", {})
 
 
-def replay_d2e(chk, d2e, M, N, rng, what):
-    for _ in range(4):
+def replay_d2e(chk, d2e, M, N, rng, what, env=None):
+    for t in range(5):
         a = numpy.array([[rng.uniform(-2, 2) for _ in range(3 * N)] for _ in range(M)])
         m = [rng.uniform(0.5, 60) for _ in range(N)]
+        if t == 0:
+            if not env:
+                continue
+            # the solver's own counterexample first
+            a = numpy.array([[float(env.get("a_%d_%d" % (r, j), a[r, j])) for j in range(3 * N)] for r in range(M)])
+            m = [float(env.get("m%d" % i, m[i])) for i in range(N)]
+            if not numpy.all(numpy.isfinite(a)) or not all(x > 0 for x in m) or not numpy.all(numpy.abs(a).sum(axis=1) > 0):
+                continue
         try:
             o = d2e.evec_disp2eig(a, m)
         except Exception as e:
